@@ -168,6 +168,17 @@ def gen(tier: str, seed: int) -> list[Case]:
         for style in STYLES:
             sfuncs = adapt(funcs, style, gated)
             files = {"src/pk/__init__.py": "", "src/pk/srcmod.py": render_module(sfuncs, style)}
+            # sibling modules that each define their OWN class of one name and use it as hint and as docstring type:
+            # the same type text means another class in every module
+            for sib in ("alpha_s", "beta_s", "gamma_s"):
+                def dd(ps, res):
+                    body = render_doc(style, "Sibling.", ps, res)
+                    return "".join("    " + ln + "\n" if ln else "\n" for ln in body.split("\n")[:-1])[4:]
+                files[f"src/pk/{sib}.py"] = (
+                    "class Settings:\n    pass\n\n\n"
+                    f'def same_{sib}(cfg: Settings) -> Settings:\n    """{dd([("cfg", "Settings")], "Settings")}    """\n    ...\n\n\n'
+                    f'def doc_only_{sib}(cfg):\n    """{dd([("cfg", "Settings")], "Settings")}    """\n    ...\n'
+                )
             for pref in ("code", "docstring"):
                 for warn in ("warn", "ignore"):
                     # the option parsers are case-insensitive: spell the values differently from run to run
@@ -251,6 +262,12 @@ def make_judge(chk: Check):
             if r["hint"] and r["doc"] and r["hint"] != r["doc"]:
                 exp_result_warn.add(fid)
             chk.case_ok(f"{style}:{where}")
+        # the sibling modules: their own class of that name, no import of a sibling's class
+        for rel, m in ss.files.items():
+            if m.py_module.endswith("_s"):
+                if m.imports:
+                    viols.append(Viol("docstring-type-resolved-in-another-module", f"siblings:{style}:{pref}", {"file": rel, "imports": m.imports}))
+                chk.case_ok(f"{style}:siblings:{pref}")
         # warnings (M9)
         got_param: dict = {}
         got_result: dict = {}
